@@ -2864,6 +2864,8 @@ class DRoc(Output):
                     N = 31
                     f_thresholds = np.linspace(threshold - 10, threshold + 10, N)
 
+        if re.compile(".*within.*").match(self.bin_type):
+            verif.util.error("A 'within' bin type cannot be used in this diagram")
         F = data.num_inputs
         labels = data.get_legend()
         f_intervals = verif.util.get_intervals(self.bin_type, f_thresholds)
@@ -3160,6 +3162,8 @@ class Performance(Output):
     def _plot_core(self, data):
         if self.thresholds is None or len(self.thresholds) != 1:
             verif.util.error("Performance plot needs a single threshold (use -r)")
+        if re.compile(".*within.*").match(self.bin_type):
+            verif.util.error("A 'within' bin type cannot be used in this diagram")
         threshold = self.thresholds[0]   # Observation threshold
         labels = data.get_legend()
         F = data.num_inputs
@@ -3556,6 +3560,8 @@ class BsDecomp(Output):
     def _plot_core(self, data):
         if self.thresholds is None or len(self.thresholds) != 1:
             verif.util.error("Murphy plot needs a single threshold (use -r)")
+        if re.compile(".*within.*").match(self.bin_type):
+            verif.util.error("A 'within' bin type cannot be used in this diagram")
 
         bsrel = verif.metric.BsRel()
         bsres = verif.metric.BsRes()
